@@ -28,6 +28,9 @@ structure DirPack where
   header : PackHeader
   dh : DirectoryHeader
   indexes : List IndexInfo
+  /-- every index tail as the reader gets it when it is looked at (tails are read lazily, in table
+      order, by `get_index_from_name`; by position by `get_index`) -/
+  indexOutcomes : List (Outcome IndexInfo)
   stores : Array (Outcome (Layout × Bytes))
   vstores : Array (Outcome (ValueStoreTail × Bytes))
 
@@ -39,13 +42,27 @@ def decodeDirPack (f : Bytes) : Outcome DirPack := do
   let vt ← readBlock f dh.valueStorePtrPos (8 * dh.valueStoreCount)
   let et ← readBlock f dh.entryStorePtrPos (8 * dh.entryStoreCount)
   let it ← readBlock f dh.indexPtrPos (8 * dh.indexCount)
-  let indexes ← (tableEntries it dh.indexCount).foldlM (fun acc so => do
+  let indexOutcomes : List (Outcome IndexInfo) := (tableEntries it dh.indexCount).map (fun so => do
     let b ← readBlock f so.1 so.2
-    let i ← IndexInfo.decode b
-    pure (acc ++ [i])) []
+    IndexInfo.decode b)
+  let indexes := indexOutcomes.filterMap (fun r => match r with | .ok i => some i | _ => none)
   let vstores := ((tableEntries vt dh.valueStoreCount).map (fun so => valueStoreOpen f so)).toArray
   let stores := ((tableEntries et dh.entryStoreCount).map (fun so => entryStoreOpen f so)).toArray
-  .ok ⟨h, dh, indexes, stores, vstores⟩
+  .ok ⟨h, dh, indexes, indexOutcomes, stores, vstores⟩
+
+/-- the first index tail that does not decode, if any (`dp.decode` reads every index) -/
+def DirPack.firstIndexFailure (d : DirPack) : Option (Outcome IndexInfo) :=
+  d.indexOutcomes.find? (fun r => match r with | .ok _ => false | _ => true)
+
+/-- `DirectoryPack::get_index_from_name`: the index tails are read in table order until one carries
+    the name; a tail that does not read aborts the scan with its error -/
+def lookupIndexByName : List (Outcome IndexInfo) → Bytes → Outcome (Option IndexInfo)
+  | [], _ => .ok none
+  | (.ok i) :: rest, name => if i.name == name then .ok (some i) else lookupIndexByName rest name
+  | (.err k) :: _, _ => .err k
+  | (.panic s) :: _, _ => .panic s
+  | .hang :: _, _ => .hang
+  | .fault :: _, _ => .fault
 
 def dirDumpLine (d : DirPack) : String :=
   let getVS : Nat → Outcome (ValueStoreTail × Bytes) := fun i =>
@@ -74,7 +91,10 @@ def runDir (fileOf : String → IO Bytes) (op : String) (args : List String) : I
     | some o, some s => do
       let f := slice (← fileOf file) o s
       match decodeDirPack f with
-      | .ok d => return s!"ok check={verdict (packCheck H id f)} " ++ dirDumpLine d
+      | .ok d =>
+        match d.firstIndexFailure with
+        | some r => return outcomeStr (fun _ => "") r
+        | none => return s!"ok check={verdict (packCheck H id f)} " ++ dirDumpLine d
       | r => return outcomeStr (fun _ => "") r
     | _, _ => return "bad-args"
   | _, _ => return "bad-op"
